@@ -1,5 +1,6 @@
 import ChipFiring.Theory.Txt
 import ChipFiring.Theory.TxtFile
+import ChipFiring.Theory.JsonText
 import ChipFiring.Theory.OrientRT
 import ChipFiring.Theory.Serial
 import Std.Data.String.ToInt
@@ -216,5 +217,25 @@ example : Txt.readDivisor (Txt.writeText (Txt.writeDivisor [['a', ' ', 'b'], ['c
 /-- the empty graph: written as a names line with an empty field, read back as no vertices (F8) -/
 example : Txt.readGraph (Txt.writeText (Txt.writeGraph [] [])) = some ([], []) :=
   txt_graph_file_roundtrip [] [] (by simp) (by simp)
+
+/-- **truncated JSON files**: the text `to_json` writes for any graph, divisor, orientation or
+    firing script (`json.dump(obj.to_dict(), indent=4)`: any names — escaped as Python escapes
+    them —, any integers, any sizes) is a dict, and every proper non-empty prefix of it ends inside
+    a bracket or a string: it is not a complete JSON document, so `json.load` rejects it and
+    `read_json` returns `None`; the complete text is closed.  (That CPython's parser rejects a
+    text that is empty or still open at its end is the assumption this rests on; it is compared
+    with `json.loads` on generated prefixes and damaged texts in every run.) -/
+theorem json_truncation_open (v : JsonText.JV) (hv : JsonText.IsFileJV v) (p : JsonText.Str)
+    (hp : p <+: JsonText.dumps v) (hne : p ≠ []) (hproper : p ≠ JsonText.dumps v) :
+    JsonText.openAtEnd p = true ∧ JsonText.openAtEnd (JsonText.dumps v) = false := by
+  cases hv <;> exact ⟨JsonText.truncated_dict_open _ p hp hne hproper, JsonText.complete_dict_closed _⟩
+
+/-- non-vacuity: the file of the empty graph and its first character as a proper prefix; the
+    scanner sees through escaped quotes and brackets inside names -/
+example : JsonText.openAtEnd ['{'] = true ∧ JsonText.openAtEnd (JsonText.dumps (JsonText.graphJV [] [])) = false :=
+  json_truncation_open _ (.graph [] []) ['{'] ⟨_, rfl⟩ (by simp) (by decide +kernel)
+
+example : JsonText.openAtEnd (JsonText.dumps (JsonText.divisorJV [['a'], ['"', ']', 'é']] [(['a'], ['"', ']', 'é'], 2)]
+    [(['a'], -3), (['"', ']', 'é'], 7)])) = false := by decide +kernel
 
 end CF.C15
